@@ -21,6 +21,7 @@
 From Coq Require Import String.
 From VLS Require Import Base.Rust Model.CommitmentPolicy Gen.TxUtilGen Gen.CommitmentPolicyGen
   Proofs.TxUtilGenProofs.
+From VLS Require Export Proofs.RustFacts.
 Require Import Lia.
 
 (** * Abstraction *)
@@ -69,19 +70,8 @@ Definition of_res (r : res) : trap (result unit) :=
 Lemma div_p_1000 a : div_p a 1000 = Val (a / 1000).
 Proof. unfold div_p. destruct (1000 =? 0) eqn:E; [lia | reflexivity]. Qed.
 
-Lemma bindR_unit (x : trap (result unit)) : bindR x (fun _ => Val (OkR tt)) = x.
-Proof. destruct x as [[[]|t]|]; reflexivity. Qed.
-
 Lemma of_res_andthen a b : of_res (andthen a b) = bindR (of_res a) (fun _ => of_res b).
 Proof. destruct a; reflexivity. Qed.
-
-Lemma bindR_cong {A B} (x : trap (result A)) (f g : A -> trap (result B)) :
-  (forall a, f a = g a) -> bindR x f = bindR x g.
-Proof. intros H. destruct x as [[a|t]|]; cbn [bindR]; [apply H | reflexivity | reflexivity]. Qed.
-
-(** the generated text ends every block with [Val (OkR tt)]; [norm] removes these units and the
-    binds of values already computed *)
-Ltac norm := repeat (progress (cbn [bindT]; rewrite ?bindR_unit)).
 
 (** [if c { policy_err!(self, tag, ..) }] followed by the rest of the function *)
 Lemma step_check swarn (c : bool) t (g : trap (result unit)) (m : res) :
@@ -101,9 +91,6 @@ Proof.
   unfold check, perr, policy_err, tag_filter.
   destruct c; [destruct (swarn (tag_name t))|]; reflexivity.
 Qed.
-
-Lemma if_val {A} (b : bool) (x y : A) : (if b then Val x else Val y) = Val (if b then x else y).
-Proof. destruct b; reflexivity. Qed.
 
 Lemma zero_fee_abs c :
   is_zero_fee_htlc (abs_ctype c) = CommitmentType_eqb c CommitmentType_AnchorsZeroFeeHtlc.
